@@ -36,7 +36,7 @@ func ownerNamespaced(t string) bool { return !strings.HasPrefix(t, "Cluster") }
 // Case is one enumerated input.
 type Case struct {
 	Owner    string     `json:"owner"`
-	Phases   [][]string `json:"phases"` // slot kinds per phase
+	Phases   [][]string `json:"phases"`              // slot kinds per phase
 	Dup      string     `json:"duplicate,omitempty"` // "", same-phase, cross-phase, via-defaulting
 	Teardown bool       `json:"teardown"`
 }
@@ -130,7 +130,7 @@ type built struct {
 	// errAccepted: the first bad phase contains an object whose dry run answers with an error
 	// status; a failing pass is then as good as a reported PreflightError
 	errAccepted bool
-	objs     [][]*unstructured.Unstructured
+	objs        [][]*unstructured.Unstructured
 }
 
 func build(c Case) *built {
